@@ -50,6 +50,20 @@ var Ch chan int
 var Sl = []int{1, 2, 3}
 var IV I = C{}
 
+func two() (wire.ProviderSet, wire.ProviderSet) { return wire.NewSet(NewA), wire.NewSet() }
+func GenF[T any]() (z T)                        { return }
+
+var MA, MB = two()
+var PA, PB = wire.NewSet(NewB), wire.NewSet(NewA)
+var NV wire.ProviderSet
+var FV = NewA
+var SV2 = SetV
+var Holder = struct{ S wire.ProviderSet }{wire.NewSet(NewA)}
+var (
+	GA = wire.NewSet(NewB)
+	GB = wire.NewSet(NewA)
+)
+
 const K = 4
 const FieldA = "A"
 '''
@@ -67,7 +81,7 @@ import (
 
 var _ unsafe.Pointer
 
-func Inject() %s {
+func Inject(%s) %s {
 	%s
 }
 '''
@@ -76,8 +90,8 @@ func Inject() %s {
 def forms():
     F = []
 
-    def add(name, args, res="int", expect="diag", body=None, dot=False, key=None):
-        F.append({"name": name, "args": args, "res": res, "expect": expect, "body": body, "dot": dot, "key": key or name})
+    def add(name, args, res="int", expect="diag", body=None, dot=False, key=None, params=""):
+        F.append({"name": name, "args": args, "res": res, "expect": expect, "body": body, "dot": dot, "key": key or name, "params": params})
     # ---- wire.Build / NewSet arguments
     add("provider", "NewA", expect="ok")
     add("paren-provider", "(NewA)", expect="ok")
@@ -101,6 +115,19 @@ def forms():
     add("index-expr", "Sl[0]")
     add("basic-literal", "42")
     add("generic-func-inst", "NewA, G[int]{}")
+    # ---- identifiers of every object kind / declaration shape
+    add("multi-value-var-first", "MA", key="build-arg:var-from-multi-value-call")
+    add("multi-value-var-second", "MB", key="build-arg:var-from-multi-value-call")
+    add("parallel-var-second", "PB", expect="ok")
+    add("grouped-var-second", "GB", expect="ok")
+    add("var-without-value", "NV")
+    add("var-of-func", "FV", expect="any")
+    add("var-of-set-var", "SV2", expect="any")
+    add("field-of-var", "Holder.S")
+    add("method-expr", "C.M")
+    add("generic-func-instance", "GenF[int]")
+    add("parameter", "ps", params="ps wire.ProviderSet")
+    add("parameter-func", "pf", params="pf func() int")
     # ---- wire.Struct
     add("struct-star", 'wire.Struct(new(S), "*"), NewA, NewB', res="S", expect="ok")
     add("struct-names", 'wire.Struct(new(S), "A"), NewA', res="*S", expect="ok")
@@ -178,7 +205,7 @@ def render(f):
     if f["name"].startswith("result-"):
         res = "(%s, error)" % f["res"]
     imp = '. "github.com/google/wire"\n\t' if f["dot"] else ""
-    inj = INJ % (imp, res, body)
+    inj = INJ % (imp, f.get("params", ""), res, body)
     if f["dot"]:
         inj = inj.replace('\t"github.com/google/wire"\n', "")
     elif "wire." not in body:
